@@ -48,30 +48,34 @@ def plan(ck: Check):
     full = ("mdachain", "chain", "parchain", "initchain")
     runs = []
     if not ck.thorough:
-        # every graph on <= 3 disciplines, self-loops, all listing orders, with and without private variables
-        runs.append(("E<=3", dict(nmin=1, nmax=3), True, full))
+        # every graph on <= 3 disciplines, self-loops, all listing orders, private x_d / y_d
+        runs.append(("E<=3", dict(nmin=1, nmax=3, privs=(True,)), True, full))
+        # the same graphs without private variables (empty grammars, isolated disciplines without data)
+        runs.append(("E<=3 bare", dict(nmin=1, nmax=3, privs=(False,), order="rot"), True, full))
         # duplicated discipline names (sample)
         runs.append(("E<=3 dup", dict(nmin=2, nmax=3, privs=(True,), dups=(True,), mod=7, key=key), True, ("mdachain",)))
         # n = 4: sampled with self-loops, rotations of the listing order
-        runs.append(("E4 sample", dict(nmin=4, nmax=4, order="rot", privs=(True,), mod=211, key=key), True,
+        runs.append(("E4 sample", dict(nmin=4, nmax=4, order="rot", privs=(True,), mod=401, key=key), True,
                      ("mdachain", "chain", "initchain")))
-        # name sets over {a, b}: shared variables, several producers
-        runs.append(("N2x2", dict(fam="N", nmin=1, nmax=2, uk=2), True, full))
+        # name sets over {a, b}: shared variables, fan-out, several producers
+        runs.append(("N<=2x2", dict(fam="N", nmin=1, nmax=2, uk=2), True, full))
         runs.append(("N3x2 sample", dict(fam="N", nmin=3, nmax=3, uk=2, mod=5, key=key), True, full))
-        # theorems only (no replay): every edge set on 4 disciplines without self-loops, rotations
-        runs.append(("E4 theorems", dict(nmin=4, nmax=4, order="rot", loops="none", privs=(True,), mod=3, key=key),
-                     False, ()))
     else:
         runs.append(("E<=3", dict(nmin=1, nmax=3), True, full + ("mdachain_gs", "mdachain_par")))
-        runs.append(("E<=3 dup", dict(nmin=2, nmax=3, dups=(True,)), True, ("mdachain", "chain")))
+        runs.append(("E<=3 dup", dict(nmin=2, nmax=3, privs=(True,), dups=(True,)), True, ("mdachain", "chain")))
         runs.append(("E4 no self-loop", dict(nmin=4, nmax=4, order="rot", loops="none", privs=(True,)), True,
                      ("mdachain", "chain", "parchain", "initchain")))
-        runs.append(("E4 self-loops sample", dict(nmin=4, nmax=4, order="rot", privs=(True, False), mod=23, key=key),
+        runs.append(("E4 self-loops sample", dict(nmin=4, nmax=4, order="rot", mod=53, key=key),
                      True, ("mdachain", "chain", "initchain")))
         runs.append(("N<=2x3", dict(fam="N", nmin=1, nmax=2, uk=3), True, full))
         runs.append(("N3x2", dict(fam="N", nmin=3, nmax=3, uk=2), True, full))
         runs.append(("N3x3 sample", dict(fam="N", nmin=3, nmax=3, uk=3, mod=41, key=key), True, full))
-        runs.append(("E4 theorems", dict(nmin=4, nmax=4, order="rot", privs=(True,)), False, ()))
+        # theorems only (no replay): every one of the 65 536 graphs with self-loops on 4 disciplines
+        runs.append(("E4 theorems", dict(nmin=4, nmax=4, order="id", privs=(True,)), False, ()))
+        runs.append(("E5 theorems sample", dict(nmin=5, nmax=5, order="id", privs=(True,), mod=7919, key=key), False, ()))
+    only = os.environ.get("VERIF_C08_ONLY")
+    if only:
+        runs = [r for r in runs if r[0] in only.split(",")]
     return runs
 
 
@@ -87,12 +91,13 @@ def run(ck: Check):
             r = ck.tlc("DepGraph", cfg(**kw), workers=8, timeout=1500, require_actions=ACTIONS)
             ck.extra.setdefault("instance_sets", {})[label] = {"instances": r.distinct and _count_init(r), "replayed": 0}
             continue
-        r = ck.tlc("DepGraph", cfg(emit=True, **kw), workers=1, timeout=1500, require_actions=ACTIONS + ("EmitCase",))
+        r = ck.tlc("DepGraph", cfg(emit=True, **kw), workers=4, timeout=1500, require_actions=ACTIONS + ("EmitCase",))
         got = [impl.case_from_tlc(v) for v in r.printed() if isinstance(v, tuple) and v and v[0] == "CASE"]
         n_init = _count_init(r)
         if not got or len(got) != n_init:
             raise MachineryError(f"{label}: {len(got)} CASE records parsed for {n_init} instances")
         ck.extra.setdefault("instance_sets", {})[label] = {"instances": n_init, "replayed": len(got)}
+        got.sort(key=lambda c: json.dumps(c["code"], sort_keys=True))   # TLC's workers print in any order
         for c in got:
             ks = [k for k in kinds if c["consistent"] and (k not in ("chain", "parchain") or c["singletons"])]
             cases.append((c, ks))
@@ -111,7 +116,7 @@ def run(ck: Check):
         part = reports[b0:b0 + batch]
         f = ck.work / f"reports-{b0}.json"
         f.write_text(json.dumps([{k: v for k, v in rep.items() if k != "errors"} for rep in part]))
-        r = ck.tlc("DepGraphReport", report_cfg(), workers=1, timeout=1500, env={"REPORT_FILE": str(f)},
+        r = ck.tlc("DepGraphReport", report_cfg(), workers=4, timeout=1500, env={"REPORT_FILE": str(f)},
                    coverage=False, count=False)
         ck.states += r.distinct
         ck.transitions += r.generated
